@@ -168,7 +168,7 @@ def run(ctx):
     from .shape_common import find_cell_accessors, run_jobs
     from engine.shape import STAR
     poll = F.trait_method('Future', 'client::RequestDispatch', 'poll')
-    acc, fields = find_cell_accessors(F, P, 'client::RequestDispatch', lambda t: t.startswith('std::option::Option<'))
+    acc, fields = find_cell_accessors(F, P, 'client::RequestDispatch', lambda t: t.startswith('std::option::Option<') and 'ChannelError' in t)
     cells = [((sorted(fields)[0], 'None'),), ((sorted(fields)[0], ('Some', STAR)),)] if fields else [()]
     res = run_jobs(F, [{'key': 'client', 'entry': poll.id, 'aut': ('sink',), 'acc': acc, 'cells': cells}])
     judge(ctx, res['client'], poll, 'C04.cascade', 'client dispatch poll (cancel leaves the client)')
